@@ -170,6 +170,12 @@ func checkAndUpdateTotalPendingStakesOfValidator(cfg *params.YouParams, db *stat
 		totalTokens.Set(val.Token)
 	}
 	totalTokens.Add(totalTokens, deltaTokens)
+	if totalTokens.Sign() < 0 {
+		// a pending self-withdrawal keeps the validator's remaining SELF tokens in this record, so an
+		// unbind larger than that would take it below zero: a negative value cannot be stored (rlp)
+		// and the record is only an aid for the checks at transaction time
+		totalTokens.SetUint64(0)
+	}
 	if deltaTokens.Sign() > 0 {
 		stake := params.YOUToStake(totalTokens).Uint64()
 		if threshold := cfg.MaxStakes[val.Role]; threshold > 0 && stake > threshold {
